@@ -288,6 +288,22 @@ def replSpL (t : Nat) (r : Expr) : List Expr → List Expr
 end
 
 mutual
+/-- The call-free pure expressions: literals, variables, operators, parentheses, list / tuple literals. -/
+def arithE : Expr → Bool
+  | .int .. => true
+  | .str .. => true
+  | .var .. => true
+  | .binop _ _ _ l r => arithE l && arithE r
+  | .paren _ _ e => arithE e
+  | .list _ _ es => arithL es
+  | .tuple _ _ es => arithL es
+  | _ => false
+def arithL : List Expr → Bool
+  | [] => true
+  | e :: rest => arithE e && arithL rest
+end
+
+mutual
 /-- Apply `HSeq` to every block nested in the expression. -/
 def H (t : Nat) (n : String) : Expr → Expr
   | .int id u v => .int id u v
@@ -312,13 +328,40 @@ def H (t : Nat) (n : String) : Expr → Expr
   | .paren id u e => .paren id u (H t n e)
   | .invalid id u => .invalid id u
   | .unsup id u w => .unsup id u w
+/-- `H`, and the node `t` on the block-free spine replaced by the variable `n`. -/
+def HR (t : Nat) (n : String) : Expr → Expr
+  | .int id u v => if id == t then .var 0 false n else .int id u v
+  | .str id u v => if id == t then .var 0 false n else .str id u v
+  | .var id u v => if id == t then .var 0 false n else .var id u v
+  | .binop id u op l r => if id == t then .var 0 false n else .binop id u op (HR t n l) (HR t n r)
+  | .letE id u d rhs => .letE id u d (HR t n rhs)
+  | .assign id u x rhs => if id == t then .var 0 false n else .assign id u x (HR t n rhs)
+  | .update id u a x rhs => if id == t then .var 0 false n else .update id u a x (HR t n rhs)
+  | .ifE id u c th el => if id == t then .var 0 false n else .ifE id u (HR t n c) (HSeq t n th) (HOpt t n el)
+  | .whileE id u c b => if id == t then .var 0 false n else .whileE id u (HR t n c) (HSeq t n b)
+  | .forE id u d e b => if id == t then .var 0 false n else .forE id u d (HR t n e) (HSeq t n b)
+  | .matchE id u s cs => if id == t then .var 0 false n else .matchE id u (HR t n s) (HCases t n cs)
+  | .ret id u none => if id == t then .var 0 false n else .ret id u none
+  | .ret id u (some e) => if id == t then .var 0 false n else .ret id u (some (HR t n e))
+  | .brk id u => if id == t then .var 0 false n else .brk id u
+  | .cont id u => if id == t then .var 0 false n else .cont id u
+  | .list id u es => if id == t then .var 0 false n else .list id u (HRList t n es)
+  | .tuple id u es => if id == t then .var 0 false n else .tuple id u (HRList t n es)
+  | .call id u f as => if id == t then .var 0 false n else .call id u (HR t n f) (HRList t n as)
+  | .lambda id u ps b => if id == t then .var 0 false n else .lambda id u ps (HSeq t n b)
+  | .paren id u e => if id == t then .var 0 false n else .paren id u (HR t n e)
+  | .invalid id u => if id == t then .var 0 false n else .invalid id u
+  | .unsup id u w => if id == t then .var 0 false n else .unsup id u w
+def HRList (t : Nat) (n : String) : List Expr → List Expr
+  | [] => []
+  | e :: rest => HR t n e :: HRList t n rest
 /-- A statement sequence: the statement on whose block-free spine the node `t` lies gets
 `let n = <node t>` inserted IMMEDIATELY BEFORE it, in this same block, and the node replaced by `n`. -/
 def HSeq (t : Nat) (n : String) : List Expr → List Expr
   | [] => []
   | e :: rest =>
     match findSp t e with
-    | some x => .letE 0 false (.sym n) (unparen x) :: replSp t (.var 0 false n) e :: HSeq t n rest
+    | some x => .letE 0 false (.sym n) (unparen x) :: HR t n e :: HSeq t n rest
     | none => H t n e :: HSeq t n rest
 def HList (t : Nat) (n : String) : List Expr → List Expr
   | [] => []
@@ -330,6 +373,93 @@ def HCases (t : Nat) (n : String) : List Case → List Case
   | [] => []
   | .mk v d b :: rest => .mk v d (HSeq t n b) :: HCases t n rest
 end
+
+def noSp (t : Nat) (e : Expr) : Bool := (findSp t e).isNone
+def noSpL (t : Nat) (es : List Expr) : Bool := (findSpL t es).isNone
+
+mutual
+/-- `sp t e`: the node `t` lies on the block-free spine of the statement `e`, every sub-expression of
+`e` that is evaluated BEFORE it is pure and call-free (`arithE`), it is not the condition of a `while`
+(evaluated more than once), and no other node on the spine carries the id. Then the state in which the
+node is evaluated is the state in which the statement starts. -/
+def sp (t : Nat) : Expr → Bool
+  | .int id _ _ => id == t
+  | .str id _ _ => id == t
+  | .var id _ _ => id == t
+  | .binop id _ _ l r => id == t || (sp t l && noSp t r) || (arithE l && noSp t l && sp t r)
+  | .letE _ _ _ rhs => sp t rhs
+  | .ifE id _ c _ _ => id == t || sp t c
+  | .forE id _ _ e _ => id == t || sp t e
+  | .matchE id _ s _ => id == t || sp t s
+  | .ret id _ (some e) => id == t || sp t e
+  | .ret id _ none => id == t
+  | .list id _ es => id == t || spL t es
+  | .tuple id _ es => id == t || spL t es
+  | .call id _ f as => id == t || (sp t f && noSpL t as) || (arithE f && noSp t f && spL t as)
+  | .paren id _ e => id == t || sp t e
+  | .lambda id _ _ _ => id == t
+  | .brk id _ => id == t
+  | .cont id _ => id == t
+  | .invalid id _ => id == t
+  | .unsup id _ _ => id == t
+  | .whileE id _ _ _ => id == t
+  | .assign .. => false
+  | .update .. => false
+def spL (t : Nat) : List Expr → Bool
+  | [] => false
+  | e :: rest => (sp t e && noSpL t rest) || (arithE e && noSp t e && spL t rest)
+end
+
+mutual
+/-- The side conditions of `let_hoist_sound`, decided on the tree before: `n` occurs nowhere, the
+program is assignment-free, and wherever a statement has the node `t` on its spine (where the `let` is
+inserted) the node is pure and call-free and `sp` holds. -/
+def G (t : Nat) (n : String) : Expr → Bool
+  | .int .. => true
+  | .str .. => true
+  | .var _ _ x => x != n
+  | .binop _ _ _ l r => G t n l && G t n r
+  | .letE _ _ d rhs => freshDest n d && G t n rhs
+  | .assign .. => false
+  | .update .. => false
+  | .ifE _ _ c th el => G t n c && GSeq t n th && GOpt t n el
+  | .whileE _ _ c b => G t n c && GSeq t n b
+  | .forE _ _ d e b => freshDest n d && G t n e && GSeq t n b
+  | .matchE _ _ s cs => G t n s && GCases t n cs
+  | .ret _ _ none => true
+  | .ret _ _ (some e) => G t n e
+  | .brk .. => true
+  | .cont .. => true
+  | .list _ _ es => GList t n es
+  | .tuple _ _ es => GList t n es
+  | .call _ _ f as => G t n f && GList t n as
+  | .lambda _ _ ps b => freshNames n ps && GSeq t n b
+  | .paren _ _ e => G t n e
+  | .invalid .. => true
+  | .unsup .. => true
+def GSeq (t : Nat) (n : String) : List Expr → Bool
+  | [] => true
+  | e :: rest =>
+    G t n e && (match findSp t e with
+      | some x => sp t e && arithE (unparen x) && fresh n (unparen x)
+      | none => true) && GSeq t n rest
+def GList (t : Nat) (n : String) : List Expr → Bool
+  | [] => true
+  | e :: rest => G t n e && GList t n rest
+def GOpt (t : Nat) (n : String) : Option (List Expr) → Bool
+  | none => true
+  | some b => GSeq t n b
+def GCases (t : Nat) (n : String) : List Case → Bool
+  | [] => true
+  | .mk _ none b :: rest => GSeq t n b && GCases t n rest
+  | .mk _ (some d) b :: rest => freshDest n d && GSeq t n b && GCases t n rest
+end
+
+def GFun (t : Nat) (n : String) (d : FunDef) : Bool := freshNames n d.params && GSeq t n d.body
+
+/-- What `hoist_check` decides besides the schema: the hypotheses of `let_hoist_sound`. -/
+def hoistSafe (t : Nat) (n : String) (p : Program) : Bool :=
+  n != "_" && p.funs.all (GFun t n) && GSeq t n p.toplevel
 
 def hoistProg (t : Nat) (n : String) (p : Program) : Program :=
   { p with funs := p.funs.map (fun d => { d with body := HSeq t n d.body }), toplevel := HSeq t n p.toplevel }
@@ -393,5 +523,103 @@ end
 def ctorsOf (p : Program) : List String :=
   ((p.enums ++ Machine.preludeEnums).flatMap fun e => (e.variants.filter (·.2)).map (·.1)).filter
     fun v => !(funNames p).contains v
+
+
+-- ------------------------------------------------------------------ side conditions of `fun_extract_sound`
+
+mutual
+/-- The variables a pure call-free expression evaluates, in evaluation order. -/
+def varsE : Expr → List String
+  | .var _ _ x => [x]
+  | .binop _ _ _ l r => varsE l ++ varsE r
+  | .paren _ _ e => varsE e
+  | .list _ _ es => varsL es
+  | .tuple _ _ es => varsL es
+  | _ => []
+def varsL : List Expr → List String
+  | [] => []
+  | e :: rest => varsE e ++ varsL rest
+end
+
+/-- The data of one function extraction: node, new name, its parameters, the names the extracted
+expression uses without passing them (globals), the new function's body (ids / flags stripped). -/
+structure FX where
+  t : Nat
+  n : String
+  ps : List String
+  gl : List String
+  bS : Expr
+
+def FX.cfg (x : FX) : WCfg :=
+  { strip := true, sel := fun i => i == x.t,
+    wrap := fun core => if exprEq core x.bS then callOf x.n x.ps else .invalid 0 false,
+    ok := fun _ => true, k := 0, fk := none }
+
+/-- Binder names allowed: not the new function's name, not a global the extracted expression uses. -/
+def FX.f (x : FX) (z : String) : Bool := z != x.n && !x.gl.contains z
+
+/-- At a selected node: it is pure and call-free, the only node with that id inside itself, equal (up
+to ids / flags) to the new function's body; every parameter occurs in it and every variable in it is
+a parameter or one of the globals. -/
+def FX.selOK (x : FX) (e : Expr) : Bool :=
+  !(e.id == x.t) ||
+    (arithE e && hits x.t e == 1 && exprEq (W stripCfg e) x.bS &&
+      (varsE e).all (fun y => y != x.n && (x.ps.contains y || x.gl.contains y)) && x.ps.all (varsE e).contains)
+
+mutual
+/-- The side conditions of `fun_extract_sound`, decided on the tree before: assignment-free, no use
+of the new name, binders allowed by `FX.f`, and `selOK` at every node. -/
+def GF (x : FX) : Expr → Bool
+  | .int id u v => x.selOK (.int id u v)
+  | .str id u v => x.selOK (.str id u v)
+  | .var id u y => x.selOK (.var id u y) && y != x.n
+  | .binop id u op l r => x.selOK (.binop id u op l r) && GF x l && GF x r
+  | .letE _ _ d rhs => bokDest x.f d && GF x rhs
+  | .assign .. => false
+  | .update .. => false
+  | .ifE id u c th el => x.selOK (.ifE id u c th el) && GF x c && GFSeq x th && GFOpt x el
+  | .whileE id u c b => x.selOK (.whileE id u c b) && GF x c && GFSeq x b
+  | .forE id u d e b => x.selOK (.forE id u d e b) && bokDest x.f d && GF x e && GFSeq x b
+  | .matchE id u s cs => x.selOK (.matchE id u s cs) && GF x s && GFCases x cs
+  | .ret id u none => x.selOK (.ret id u none)
+  | .ret id u (some e) => x.selOK (.ret id u (some e)) && GF x e
+  | .brk id u => x.selOK (.brk id u)
+  | .cont id u => x.selOK (.cont id u)
+  | .list id u es => x.selOK (.list id u es) && GFSeq x es
+  | .tuple id u es => x.selOK (.tuple id u es) && GFSeq x es
+  | .call id u f as => x.selOK (.call id u f as) && GF x f && GFSeq x as
+  | .lambda id u ps b => x.selOK (.lambda id u ps b) && ps.all x.f && GFSeq x b
+  | .paren id u e => x.selOK (.paren id u e) && GF x e
+  | .invalid id u => x.selOK (.invalid id u)
+  | .unsup id u w => x.selOK (.unsup id u w)
+def GFSeq (x : FX) : List Expr → Bool
+  | [] => true
+  | e :: rest => GF x e && GFSeq x rest
+def GFOpt (x : FX) : Option (List Expr) → Bool
+  | none => true
+  | some b => GFSeq x b
+def GFCases (x : FX) : List Case → Bool
+  | [] => true
+  | .mk _ none b :: rest => GFSeq x b && GFCases x rest
+  | .mk _ (some d) b :: rest => bokDest x.f d && GFSeq x b && GFCases x rest
+end
+
+def GFFun (x : FX) (d : FunDef) : Bool := d.params.all x.f && GFSeq x d.body
+
+/-- The extraction data read off the program after (`d` = the new function). -/
+def fxOf (t : Nat) (n : String) (d : FunDef) (b : Expr) : FX :=
+  { t := t, n := n, ps := d.params, gl := (varsE b).filter (fun y => !d.params.contains y), bS := W stripCfg b }
+
+/-- What `funext_check` decides besides the schema: the hypotheses of `fun_extract_sound`. -/
+def funSafe (p p' : Program) (t : Nat) (n : String) : Bool :=
+  match p'.funs.find? (fun d => d.name == n) with
+  | none => false
+  | some d =>
+    match d.body with
+    | [b] =>
+      let x := fxOf t n d b
+      n != "_" && d.params.all (· != "_") && (nsLookup (funNames p) p.enums n).isNone &&
+        d.params.all x.f && p.funs.all (GFFun x) && GFSeq x p.toplevel
+    | _ => false
 
 end Extract
